@@ -604,8 +604,9 @@ def rows_from_df(df):
     return rows
 
 
-def parse_pqr_ws(text):
-    """ATOM/HETATM lines of a PQR written with --keep-chain --whitespace (an insertion code is its own field)."""
+def parse_pqr_ws(text, keep_chain=True, default_chain="A"):
+    """ATOM/HETATM lines of a PQR written with --whitespace (an insertion code is its own field),
+    with or without the chain column (--keep-chain)."""
     out = []
     for ln in text.splitlines():
         if not ln.startswith(("ATOM", "HETATM")):
@@ -613,6 +614,8 @@ def parse_pqr_ws(text):
         f = ln.split()
         x, y, z, q, r = map(float, f[-5:])
         head = f[:-5]
+        if not keep_chain:
+            head = head[:4] + [default_chain] + head[4:]
         if len(head) not in (6, 7):
             raise ValueError(f"unparsable PQR line: {ln!r}")
         out.append({"name": head[2], "resname": head[3], "chain": head[4], "resseq": head[5], "icode": head[6] if len(head) == 7 else "", "charge": q})
@@ -659,19 +662,37 @@ def run_entry(pdb_text, args, ph, workdir, entry):
     return res
 
 
-def e2e(ctx, seq, ff, ph, rows, entry="parser", cache={}):  # noqa: B006 - deliberate per-process cache
+# other options that reach non_trivial together with the titration
+OPTSETS = [(), ("--noopt",), ("--nodebump",), ("--noopt", "--nodebump"), ("--drop-water",), ("--ffout=AMBER",), ("--no-keep-chain",),
+           ("--noopt", "--ffout=PARSE"), ("--neutraln", "--neutralc")]
+
+
+def e2e(ctx, seq, ff, ph, rows, entry="parser", opts=(), cache={}):  # noqa: B006 - deliberate per-process cache
     """One pipeline run. rows=None: no titration step (baseline). ph is the REQUESTED pH as text."""
     from harness import builder as B
     from pdb2pqr import biomolecule as pbio
     from pdb2pqr import main as pmain
 
     real = isinstance(rows, str) and rows == "real"
-    key = (skey(seq), ff, ph, entry, "real" if real else json.dumps([(r["group_label"], r["_dec"]) for r in rows]) if rows is not None else None)
+    opts = tuple(o for o in opts if not (o in ("--neutraln", "--neutralc") and ff != "PARSE"))
+    keep_chain = "--no-keep-chain" not in opts or isinstance(seq, Struct)
+    ffout = any(o.startswith("--ffout") for o in opts)
+    key = (skey(seq), ff, ph, entry, opts, "real" if real else json.dumps([(r["group_label"], r["_dec"]) for r in rows]) if rows is not None else None)
     if key in cache:
         return cache[key]
-    args = [f"--ff={ff}", "--keep-chain", "--whitespace"]
+    args = [f"--ff={ff}", "--whitespace"] + (["--keep-chain"] if keep_chain else []) + [o for o in opts if o != "--no-keep-chain"]
     cap = {}
     orig_rp, orig_ap = pmain.run_propka, pbio.Biomolecule.apply_pka_values
+    orig_aff = pbio.Biomolecule.apply_force_field
+    snap = {}
+
+    def wrapped_aff(self, forcefield_):
+        # the finished model in pdb2pqr's own atom names (--ffout renames the atoms afterwards, in place)
+        for x in self.residues:
+            snap[(x.chain_id, int(x.res_seq), x.name)] = [a.name for a in x.atoms]
+        return orig_aff(self, forcefield_)
+
+    pbio.Biomolecule.apply_force_field = wrapped_aff
     if rows is not None:
         args += ["--titration-state-method=propka"]
         if not real:
@@ -690,7 +711,8 @@ def e2e(ctx, seq, ff, ph, rows, entry="parser", cache={}):  # noqa: B006 - delib
             r = run_entry(peptide_pdb(seq), args, ph, ctx.scratch_dir() / "e2e", entry)
     finally:
         pmain.run_propka, pbio.Biomolecule.apply_pka_values = orig_rp, orig_ap
-    obs = {"exc": None, "cap": cap, "rows": [] if (real or rows is None) else rows, "warnings": [m.split(":", 2)[2] for m in r["messages"] if m.startswith("WARNING")]}
+        pbio.Biomolecule.apply_force_field = orig_aff
+    obs = {"exc": None, "cap": cap, "opts": opts, "rows": [] if (real or rows is None) else rows, "warnings": [m.split(":", 2)[2] for m in r["messages"] if m.startswith("WARNING")]}
     if r["exc"] is not None or r["result"] is None or r["pqr_text"] is None:
         obs["exc"] = f"{type(r['exc']).__name__}: {r['exc']}" if r["exc"] is not None else "no output"
         crit = [m for m in r["messages"] if m.startswith("CRITICAL")]
@@ -699,15 +721,27 @@ def e2e(ctx, seq, ff, ph, rows, entry="parser", cache={}):  # noqa: B006 - delib
         _missed, _df, bio = r["result"]
         if real:
             obs["rows"] = rows_from_df(_df)
-        atoms = parse_pqr_ws(r["pqr_text"])
+        atoms = parse_pqr_ws(r["pqr_text"], keep_chain, getattr(seq, "chain", "A"))
         present = {(a["chain"], int(a["resseq"]), a["name"]) for a in atoms}
         obs["charge"] = sum(a["charge"] for a in atoms)
         obs["residues"] = [
             {"name": x.name, "seq": int(x.res_seq), "chain": x.chain_id, "ffname": x.ffname, "patches": list(x.patches), "pos": pos_of(x),
-             "ss": bool(getattr(x, "ss_bonded", False)) or "CYX" in x.patches, "atoms": [a.name for a in x.atoms]}
+             "ss": bool(getattr(x, "ss_bonded", False)) or "CYX" in x.patches,
+             "atoms": snap.get((x.chain_id, int(x.res_seq), x.name), [a.name for a in x.atoms])}
             for x in bio.residues
         ]
-        obs["missing"] = sorted((x["chain"], x["seq"], a) for x in obs["residues"] for a in x["atoms"] if (x["chain"], x["seq"], a) not in present)
+        if ffout:
+            # output names follow another naming scheme: use the unassigned-atom list of the run and the per-residue atom counts
+            obs["missing"] = sorted({(a.residue.chain_id, int(a.residue.res_seq), a.name) for a in _missed})
+            per = {}
+            for a in atoms:
+                per[(a["chain"], int(a["resseq"]))] = per.get((a["chain"], int(a["resseq"])), 0) + 1
+            for x in obs["residues"]:
+                lost = len(x["atoms"]) - per.get((x["chain"], x["seq"]), 0) - sum(1 for m in obs["missing"] if m[:2] == (x["chain"], x["seq"]))
+                if lost:
+                    obs["missing"].append((x["chain"], x["seq"], f"#{lost} atoms not written"))
+        else:
+            obs["missing"] = sorted((x["chain"], x["seq"], a) for x in obs["residues"] for a in x["atoms"] if (x["chain"], x["seq"], a) not in present)
     cache[key] = obs
     return obs
 
@@ -773,16 +807,32 @@ def case_of(seq, ff, ph, rows, real):
     return c
 
 
-def judge_run(ctx, probe, seq, ff, ph, rows, tag, entry="parser"):
+# the titratable hydrogens of each group: (names, number present when protonated, when deprotonated)
+GROUP_H = {"ASP": (("HD1", "HD2"), 1, 0), "GLU": (("HE1", "HE2"), 1, 0), "HIS": (("HD1", "HE2"), 2, 1), "CYS": (("HG",), 1, 0), "TYR": (("HH",), 1, 0),
+           "LYS": (("HZ1", "HZ2", "HZ3"), 3, 2), "ARG": (("HE", "HH11", "HH12", "HH21", "HH22"), 5, 4), "N+": (("H", "H2", "H3"), 3, 2), "C-": (("HO",), 1, 0)}
+
+
+def hydrogen_count_ok(group, res):
+    """The group carries exactly the hydrogens of one of its two states."""
+    names, n_prot, n_deprot = GROUP_H[group]
+    if group == "N+" and res["name"] == "PRO":
+        names, n_prot, n_deprot = ("H", "H2", "H3"), 2, 1
+    n = sum(1 for a in res["atoms"] if a in names)
+    return n == (n_prot if observed_protonated(group, res) else n_deprot), n
+
+
+def judge_run(ctx, probe, seq, ff, ph, rows, tag, entry="parser", opts=()):
     """Model-independent oracle on one titrated run. Reports through ctx.fail.
     rows: stub rows (make_rows) or "real" (PROPKA itself supplies them)."""
     real = isinstance(rows, str)
-    obs = e2e(ctx, seq, ff, ph, rows, entry)
-    base = e2e(ctx, seq, ff, None, None)
+    obs = e2e(ctx, seq, ff, ph, rows, entry, opts)
+    base = e2e(ctx, seq, ff, None, None, "parser", opts)
+    opts = obs["opts"]
     rows = obs["rows"] if real else rows
     case = case_of(seq, ff, ph, rows, real)
     case["entry"] = entry
-    name = label_of(seq)
+    case["opts"] = list(opts)
+    name = label_of(seq) + (" " + " ".join(opts) if opts else "")
     phf = float(ph)  # the REQUESTED pH: what argparse's type=float makes of the text
     # identity tie (model: ph_of_args): the float that reaches apply_pka_values is the requested one
     if obs["cap"]:
@@ -801,9 +851,12 @@ def judge_run(ctx, probe, seq, ff, ph, rows, tag, entry="parser"):
             # the untitrated run of this structure fails as well (e.g. PEOEPB has no complete CGLY): not titration's doing
             ctx.count(f"baseline-aborts:{ff}")
             return obs
-        sig = diagnose_abort(ctx, probe, seq, ff, ph, rows) if not real else {"defect": "run-aborted", "ff": ff}
+        sig = diagnose_abort(ctx, probe, seq, ff, ph, rows) if not real else {"defect": "run-lost", "ff": ff}
+        if sig.get("defect") in ("run-aborted", "run-lost"):
+            sig = {"defect": "run-lost", "condition": "run-lost", "ff": ff, "options": " ".join(opts) or "default",
+                   "groups": "+".join(sorted({r["_group"] for r in rows if r["_group"] not in ("N+", "C-") and (float(ph) < r["_val"]) != DEFAULT_PROT[r["_group"]]})) or "-"}
         ctx.evaluated((tag, ff, name, ph, "abort"), True)
-        ctx.fail(sig, f"{ff} {name} pH {ph}: run aborted after titration ({obs['exc']}; {obs.get('critical')})", case)
+        ctx.fail(sig, f"{ff} {name} pH {ph}: the untitrated run succeeds, the titrated run is lost ({obs['exc']}; {obs.get('critical')})", case)
         return obs
     resmap = {(x["chain"], x["seq"]): x for x in obs["residues"]}
     # -- nothing dropped because of titration
@@ -837,6 +890,10 @@ def judge_run(ctx, probe, seq, ff, ph, rows, tag, entry="parser"):
             continue
         wanted = phf < r["_val"]
         default = DEFAULT_PROT[g]
+        if g == "N+" and "--neutraln" in opts and res["name"] != "PRO":
+            default = False
+        if g == "C-" and "--neutralc" in opts:
+            default = True
         got = observed_protonated(g, res)
         side = "below" if wanted else "above"
         nontrivial = wanted != default
@@ -872,6 +929,14 @@ def judge_run(ctx, probe, seq, ff, ph, rows, tag, entry="parser"):
             sig = {"defect": bad, "ff": ff, "group": g, "pos": res["pos"], "side": side, "wanted_state": wname, "supported": sup,
                    "numbering": "wide" if (res["seq"] >= 1000 or res["seq"] <= -100) else "plain"}
         ctx.fail(sig, f"{ff} {name}: {g} {res['seq']} {res['chain']} at {res['pos']} pH {ph} pKa {r['_dec']}: wanted {'protonated' if wanted else 'deprotonated'} ({wname}, parameterisable={sup}); observed {'protonated' if got else 'deprotonated'} as {res['ffname']}, warned={warned}, dict keys passed {sorted(obs['cap'].get('dict', {}))[:6]} -> {bad}", case)
+    # -- every titratable group on the returned model has exactly the hydrogens of one state
+    for res in obs["residues"]:
+        g0 = VARIANT_OF.get(res["name"], res["name"])
+        for g in ([g0] if g0 in GROUP_H and not (g0 == "CYS" and res["ss"]) else []) + (["N+"] if res["pos"] in ("N", "NC") else []) + (["C-"] if res["pos"] in ("C", "NC") else []):
+            okh, n = hydrogen_count_ok(g, res)
+            if not okh:
+                ctx.fail({"defect": "hydrogen-count", "ff": ff, "group": g, "pos": res["pos"], "options": " ".join(opts) or "default"},
+                         f"{ff} {name} pH {ph}: {g} of {res['name']} {res['seq']} {res['chain']} ({res['ffname']}, patches {res['patches']}) carries {n} of {GROUP_H[g][0]}: neither state", case)
     # -- charge: integral and equal to the chemistry of the observed states
     if not obs["missing"]:
         exp = 0
@@ -940,7 +1005,7 @@ SWEEP_PEPTIDES = [
 ]
 
 
-def sweep(ctx, probe, seq, ff, phs, real=False):
+def sweep(ctx, probe, seq, ff, phs, real=False, opts=()):
     if real:
         rows = "real"
     else:
@@ -951,7 +1016,7 @@ def sweep(ctx, probe, seq, ff, phs, real=False):
     name = label_of(seq)
     prev = None
     for ph in phs:
-        obs = judge_run(ctx, probe, seq, ff, ph, rows, "sweep")
+        obs = judge_run(ctx, probe, seq, ff, ph, rows, "sweep", "parser", opts)
         ctx.count("sweep:runs")
         if obs["exc"] is not None:
             prev = None
@@ -967,7 +1032,7 @@ def sweep(ctx, probe, seq, ff, phs, real=False):
                     if tp and (l is None or l):
                         sig = {"defect": "unsupported-state-applied", "ff": ff, "group": res["name"], "patch": tp[-1], "pos": res["pos"], "effect": "charge-increases"}
             c = case_of(seq, ff, ph, [], real)
-            c.update({"kind": "sweep" if not isinstance(seq, Struct) else "struct-sweep", "ph_lo": prev[0], "ph_hi": ph, "real": real})
+            c.update({"kind": "sweep" if not isinstance(seq, Struct) else "struct-sweep", "ph_lo": prev[0], "ph_hi": ph, "real": real, "opts": list(opts)})
             ctx.fail(sig, f"{ff} {name}: total charge rises from {prev[1]:.3f} at pH {prev[0]} to {obs['charge']:.3f} at pH {ph}", c)
         prev = (ph, obs["charge"], obs)
 
@@ -1089,7 +1154,7 @@ def run_case_(ctx, probe, case):
         else:
             rows = [{"res_num": n, "ins_code": " ", "res_name": rn, "chain_id": c, "group_label": propka_label_py(g if g in ("N+", "C-") else rn, n, c),
                      "group_type": g, "pKa": float(v), "model_pKa": float(v), "buried": 0.0, "coupled_group": None, "_dec": v, "_group": g, "_val": float(v)} for rn, n, c, g, v in case["rows"]]
-        obs = judge_run(ctx, probe, seq, case["ff"], case["ph"], rows, "case", case.get("entry", "parser"))
+        obs = judge_run(ctx, probe, seq, case["ff"], case["ph"], rows, "case", case.get("entry", "parser"), tuple(case.get("opts", ())))
         if case.get("expect") == "passes" and obs["exc"] is None:
             # regression of a repaired finding: all atoms kept, default state kept, warning logged
             for i, g, _v in case["pkas"]:
@@ -1102,7 +1167,7 @@ def run_case_(ctx, probe, case):
                     ctx.fail({"defect": "regression-of-fixed-finding", "ff": case["ff"], "group": g, "pos": res["pos"]},
                              f"regression case {case.get('regression_of')}: residue {res['name']} {res['seq']} is {res['ffname']} patches {res['patches']}, missing {obs['missing'][:3]}, warnings {obs['warnings'][:2]}", case)
     elif case["kind"] in ("sweep", "struct-sweep"):
-        sweep(ctx, probe, seq, case["ff"], [case["ph_lo"], case["ph_hi"]], real=bool(case.get("real")))
+        sweep(ctx, probe, seq, case["ff"], [case["ph_lo"], case["ph_hi"]], real=bool(case.get("real")), opts=tuple(case.get("opts", ())))
     elif case["kind"] == "witness-keys":
         # Coq witness of C06_key_collision_refuted on the real function
         from harness import builder as B
@@ -1135,7 +1200,11 @@ def run(ctx):
         "rows each run) and with PROPKA itself; PROPKA sweeps of a two-chain structure, a disulfide pair (bridged CYS must stay CYX) and a "
         "peptide with residues pre-named ASH/LYN/CYM/HIP/GLH/TYM; pH and pKa BOTH at full float resolution (pH = pKa +- k ulp, +-1e-12, "
         "+-1e-6, +-4e-3, +-4.9e-3, +-5.1e-3, +-0.3, random within 5e-3; pKa values with many decimals), the pH as text in 13 spellings, "
-        "through three entry points (builder parser path, pdb2pqr.main.run_pdb2pqr, main_driver(Namespace)); every run also checks that "
+        "through three entry points (builder parser path, pdb2pqr.main.run_pdb2pqr, main_driver(Namespace)); the cell runs and one sweep "
+        "also draw the other options that reach non_trivial with the titration (--noopt, --nodebump, both, --drop-water, --ffout, without "
+        "--keep-chain, --neutraln/--neutralc for PARSE; internal residues always with defaults AND --noopt); every titratable group on the "
+        "finished model must carry exactly the hydrogens of one of its states (counted before --ffout renaming); a titrated run that aborts "
+        "while the untitrated run with the same options succeeds is a failure (condition run-lost); every run also checks that "
         "the float reaching apply_pka_values equals float(requested text); oracle (state decided by pKa vs the REQUESTED pH) = "
         "chemistry of the atoms present + direct look-ups in pdb2pqr's loaded force field. A group evaluation is non-trivial when "
         "pH vs pKa asks for the non-default state; distinct by (force field, group, position, side)"
@@ -1162,15 +1231,25 @@ def run(ctx):
     seen = []
     runs = cell_runs(ctx)
     hot = not (ok and corr_ok)
+    kopt = 0
     for ff in FFS6:
         for seq, ph, pk in runs:
             rows = make_rows(seq, pk)
-            obs = judge_run(ctx, probe, seq, ff, ph, rows, "cell")
-            ctx.count("cells:runs")
-            if obs["cap"]:
-                seen.append((rows, obs["cap"]["dict"]))
-                if obs["cap"]["ff"] != ff.lower():
-                    ctx.broke("correspondence-broken", "force-field name seen by apply_pka_values (ff_of_args)", f"--ff={ff} -> {obs['cap']['ff']!r}")
+            # internal residues: defaults AND --noopt AND a rotating option set; terminal ones: the rotating set (defaults included)
+            kopt += 1
+            rot = OPTSETS[kopt % len(OPTSETS)]
+            internal = len(seq) == 3 and any(i == 1 and g not in ("N+", "C-") for (i, g) in pk)
+            optsets = [(), ("--noopt",), rot] if internal else [rot]
+            if ctx.thorough or hot:
+                optsets = OPTSETS
+            for opts in dict.fromkeys(optsets):
+                obs = judge_run(ctx, probe, seq, ff, ph, rows, "cell", "parser", opts)
+                ctx.count("cells:runs")
+                ctx.count("options:" + (" ".join(opts) or "default"))
+                if obs["cap"]:
+                    seen.append((rows, obs["cap"]["dict"]))
+                    if obs["cap"]["ff"] != ff.lower():
+                        ctx.broke("correspondence-broken", "force-field name seen by apply_pka_values (ff_of_args)", f"--ff={ff} -> {obs['cap']['ff']!r}")
     # residue numbers over the whole PDB range, chain ids, an insertion code: stub rows in PROPKA's layout and PROPKA itself
     numbering = [mkseq(["ALA", "ASP", "HIS", "LYS", "ALA"], st, ch, ic) for st, ch, ic in ((-105, "A", ""), (-2, "B", ""), (997, "A", ""), (9995, "C", ""), (5, "A", "A"))]
     for seq in numbering:
@@ -1236,6 +1315,8 @@ def run(ctx):
     for seq in peptides:
         for ff in FFS6:
             sweep(ctx, probe, seq, ff, phs_t if ctx.thorough else phs_q)
+    for ff in (("PARSE", "CHARMM") if not (ctx.thorough or hot) else FFS6):  # the same sweep without hydrogen optimisation / debumping
+        sweep(ctx, probe, peptides[0], ff, phs_t if ctx.thorough else phs_q, opts=("--noopt", "--nodebump"))
     t_e2e = ctx.elapsed()
     rows_ok = check_rows_to_dict(ctx, seen)
     corr_ok = corr_ok and rows_ok
